@@ -27,6 +27,9 @@ import os, re, sys, time, signal, subprocess, shutil, hashlib, collections, rand
 from vlib import farm, runner
 from props import _g12_gen as G
 
+# no thorough_cmd in the MANIFEST: the quick tier alone costs ~6400 worker-CPU-s (>= 13 min at VERIF_JOBS=8 on an idle box); a timed
+# run of the reduced thorough bound below (383 jobs = 1.4x quick) had not finished its first 48 of 383 jobs after 15 min at load ~30
+NO_THOROUGH = True
 LEVEL = 'exploration'
 ENGINE = 'E1 pyexplore'
 TECHNIQUE = 'exhaustive grammar-bounded program enumeration + complete token/byte mutation sweep, crash/rejection/C-acceptance oracle on every input'
